@@ -6,5 +6,5 @@ Op(o, k, v) == [op |-> o, k |-> k, k2 |-> 0, v |-> v]
 MenuRW == {Op("Put", 1, 1), Op("Put", 1, 2), Op("Delete", 1, 0), Op("Get", 1, 0), Op("Put", 2, 1), Op("Get", 2, 0),
            [op |-> "Batch", k |-> 1, k2 |-> 2, v |-> 3], Op("Merge", 0, 0)}
 \* C09: every kind of call
-MenuAll == MenuRW \cup {Op("ListKeys", 0, 0), Op("Sync", 0, 0), Op("Stat", 0, 0)}
+MenuAll == MenuRW \cup {Op("ListKeys", 0, 0), Op("Sync", 0, 0), Op("Stat", 0, 0), Op("BgMerge", 0, 0)}
 =============================================================================
